@@ -170,6 +170,19 @@ func runOpShared(name string, attrs []Attr, inputs []*TJ, outNames []string, sha
 			ts[p[0]] = ts[p[1]]
 		}
 		orig := append([]tensor.Tensor{}, ts...)
+		// the list handed to the gate is a prefix of a longer, fully populated backing array (a caller that
+		// builds {data, axes, ...} once and passes a shorter prefix): what lies behind len() is none of the
+		// operator's business - padding for omitted optional inputs is nil, not whatever is stored there
+		{
+			backing := make([]tensor.Tensor, len(ts), len(ts)+4)
+			copy(backing, ts)
+			extras := backing[len(ts) : len(ts)+4]
+			extras[0] = tensor.New(tensor.WithShape(1), tensor.WithBacking([]int64{0}))
+			extras[1] = tensor.New(tensor.WithShape(1), tensor.WithBacking([]int64{1}))
+			extras[2] = tensor.New(tensor.WithShape(1), tensor.WithBacking([]float32{7}))
+			extras[3] = tensor.New(tensor.WithShape(2), tensor.WithBacking([]int64{1, 1}))
+			ts = backing
+		}
 		vts, err := op.ValidateInputs(ts)
 		if err != nil {
 			r := errResult(err)
@@ -355,7 +368,13 @@ func reuseProbe(name string, node *onnx.NodeProto, inputs []*TJ, fresh *Result) 
 	sort.Strings(keys)
 	for _, k := range keys {
 		op, err := opset13.GetOperator(name)
-		if err != nil || op.Init(node) != nil {
+		if err != nil {
+			continue
+		}
+		if ierr := op.Init(node); ierr != nil {
+			// the very NodeProto initialised an operator a moment ago (Model.Run initialises every node anew on
+			// every Run): a later Init must succeed as well
+			bad = append(bad, fmt.Sprintf("%s: a second Init of the same NodeProto fails: %v", k, ierr))
 			continue
 		}
 		// Conv stores the per-rank defaults of its first call on the instance (by design: Run makes a
